@@ -87,7 +87,7 @@ type c10Rule struct {
 }
 
 func TestVfC10Rules(t *testing.T) {
-	st := vfkit.Stats("TestVfC10Rules", "generated configurations (1-3 upstreams of which some answer SERVFAIL / REFUSED, 0-3 domain sets with shared files incl. empty sets, 0-6 rules with optional domain / reverse / reject 0-15 / forward / no action) each run by the real binary (cache off / memory / a second-level store shared by all configurations of the run), x 25 queries (names in/out of the sets, mixed case, several types and classes); oracle: reference first-match model -> client rcode (a failing upstream's own rcode) and answering upstream tag, the selected upstream and no other receives exactly one lower-cased RD=1 query, reject/REFUSED decisions cause no upstream traffic; non-trivial = deciding rule is not the first, or reverse decides, or a reject precedes a forward that would also match")
+	st := vfkit.Stats("TestVfC10Rules", "generated configurations (1-3 upstreams of which some answer SERVFAIL / REFUSED, in one configuration of three all written with one addr and told apart by dial_addr, 0-3 domain sets with shared files incl. empty sets, 0-6 rules with optional domain / reverse / reject 0-15 / forward / no action) each run by the real binary (cache off / memory / a second-level store shared by all configurations of the run), x 25 queries (names in/out of the sets, mixed case, several types and classes); oracle: reference first-match model -> client rcode (a failing upstream's own rcode) and answering upstream tag, the selected upstream and no other receives exactly one lower-cased RD=1 query, reject/REFUSED decisions cause no upstream traffic; non-trivial = deciding rule is not the first, or reverse decides, or a reject precedes a forward that would also match")
 	defer vfkit.Flush()
 	// One second-level store (kit/fakeredis.go) for the whole run: configurations that use it inherit what earlier
 	// configurations - with other rule lists - left there. Names come from a small label set, so they meet again.
@@ -153,9 +153,16 @@ func TestVfC10Rules(t *testing.T) {
 		nSets := rapid.IntRange(0, 3).Draw(t, "nSets")
 		setEntries := make([][]c10Entry, nSets)
 		cfg := &Config{Servers: StdServers(pip, []string{"udp"}, "")}
+		// In one configuration of three every upstream is written with the same addr (one server name, as it were) and
+		// told apart by dial_addr only: they are still different upstreams, each rule's questions go to its own.
+		sameAddr := rapid.IntRange(0, 2).Draw(t, "sameAddrDifferentDialAddr") == 0
 		for i, u := range ups {
 			_ = i
-			cfg.Upstreams = append(cfg.Upstreams, UpstreamCfg{Tag: u.Tag, Addr: u.Addr()})
+			uc := UpstreamCfg{Tag: u.Tag, Addr: u.Addr()}
+			if sameAddr {
+				uc.Addr, uc.DialAddr = "udp://"+block+"200:53", strings.TrimPrefix(u.Addr(), "udp://")
+			}
+			cfg.Upstreams = append(cfg.Upstreams, uc)
 		}
 		for s := 0; s < nSets; s++ {
 			ds := DomainSet{Tag: fmt.Sprintf("set-%d", s), Files: []string{}}
@@ -396,7 +403,7 @@ func TestVfC10Rules(t *testing.T) {
 		if cacheMode == "shared-store" {
 			st.Class("store-hits", int(store.Hits.Load()-storeHitsBefore))
 		}
-		st.Case(vfkit.Fingerprint(cfg.YAML(), fmt.Sprint(files)), nontrivial && nRules >= 2, []string{fmt.Sprintf("rules=%d", nRules), "cache=" + cacheMode}, func() any {
+		st.Case(vfkit.Fingerprint(cfg.YAML(), fmt.Sprint(files)), nontrivial && nRules >= 2, []string{fmt.Sprintf("rules=%d", nRules), "cache=" + cacheMode, fmt.Sprintf("same-addr-different-dial_addr=%v", sameAddr && nUp > 1)}, func() any {
 			return map[string]any{"config": cfg.YAML(), "files": files}
 		})
 	})
